@@ -147,7 +147,9 @@ def finish(prop, tier, seed, mod, tasks, results, wall):
         level="model_checking",
         coverage=dict(
             states=max(agg["paths"], 0),
-            transitions=agg["conditions_decided"],
+            # solver decisions taken by this run: branch conditions decided plus obligation / side-condition queries
+            transitions=agg["conditions_decided"] + agg["queries"],
+            branch_conditions_decided=agg["conditions_decided"],
             traces_validated_against_impl=agg["validated"],
             samples=samples or [dict(note="no path completed")],
             obligations=agg["obligations"],
